@@ -555,6 +555,9 @@ func BatchFunc[T any](
 				if len(batch) > 0 {
 					// Time already elapsed, just deliver the batch now.
 					if time.Since(batchStart) > maxWait {
+						// A timer armed for an earlier waiter may have fired in the meantime; its
+						// tick must not flush the next batch.
+						stopTimer()
 						if !flush() {
 							return
 						}
